@@ -146,3 +146,15 @@ func init() {
 		Quick:    tierCfg{Shards: 8, Checks: 40, Procs: tp, Parallel: 8, TimeoutS: 1200, ReplayRepeat: 10},
 		Thorough: tierCfg{Shards: 8, Checks: 1500, Procs: tp, Parallel: 8, TimeoutS: 7200, ReplayRepeat: 30}}
 }
+
+func init() {
+	specs["C16"] = propSpec{Level: "exploration",
+		Quick:    tierCfg{Shards: 16, Checks: 25, Procs: []int{4}, TimeoutS: 1200, ReplayRepeat: 10},
+		Thorough: tierCfg{Shards: 16, Checks: 600, Procs: []int{4}, TimeoutS: 7200, ReplayRepeat: 30}}
+	specs["C17"] = propSpec{Level: "exploration",
+		Quick:    tierCfg{Shards: 16, Checks: 20, Procs: []int{4}, Parallel: 8, TimeoutS: 1200, ReplayRepeat: 10},
+		Thorough: tierCfg{Shards: 16, Checks: 500, Procs: []int{4}, Parallel: 8, TimeoutS: 7200, ReplayRepeat: 30}}
+	specs["C18"] = propSpec{Level: "exploration",
+		Quick:    tierCfg{Shards: 16, Checks: 20, Procs: []int{4}, TimeoutS: 1200, ReplayRepeat: 10},
+		Thorough: tierCfg{Shards: 16, Checks: 500, Procs: []int{4}, TimeoutS: 7200, ReplayRepeat: 30}}
+}
